@@ -204,6 +204,28 @@ def run(report):
                      "ownFirst": True})
     results = C.pmap(run_case, cases)
     model = drv.pbatch(reqs, chunk=500)
+    # string literals with escapes, in files with LF and with CRLF line ends, against the README's reading of the escapes
+    from . import c11 as K
+    import itertools as _it
+    C.build_jv()
+    jv = C.Jv(timeout=300)
+    ALPH = ["a", "\\", "n", "t", "r", "\"", " ", "\n", "\r\n", "\u00e9"]
+    lits = ["".join(x) for k in (1, 2, 3, 4) for x in _it.product(ALPH, repeat=k)][: (4000 if tier == "quick" else 12000)]
+    srcs = ['x := "%s"\n' % c for c in lits]
+    comp = jv.pbatch([{"op": "compile", "src": t} for t in srcs], chunk=2000)
+    n_lit = 0
+    for t, r in zip(srcs, comp):
+        want = K.py_cook(t)
+        if want is None or "dump" not in r and "error" not in r:
+            continue
+        if len(re.findall(r'(?<!\\)(?:\\\\)*"', t)) != 2:
+            continue          # the content closes the literal early: not the literal this case is about
+        n_lit += 1
+        got = {"cooked": r["dump"]["assignments"]["x"]["value"]} if "dump" in r else {"error": r.get("error")}
+        if got != want:
+            report.failure("c04-string-escapes", "a string literal does not have the value the README defines: got %r want %r" % (got, want),
+                           {"op": "compile", "src": t, "observed": got, "readme": want})
+    report.coverage["escape_literals"] = n_lit
     # the same programs written in a second textual order: values must not depend on it
     cases2 = []
     for (assigns, overrides, text_order, plan, use_set) in cases[: n // 4]:
